@@ -154,6 +154,14 @@ func (s Shape) SourceDeco(pkg string, mode, level int) string {
 			}
 		}
 		excl(0)
+		if mode == 7 && on {
+			// excluded EMBEDDED structs: one tagged "-", one of an unexported type; their exported fields must not become columns
+			k := len(types)
+			types = append(types, fmt.Sprintf("type SkipEmb%d struct {\n\tGhost%d int32 `parquet:\"ghost%d\"`\n\tC%d chan int\n}\n", k, k, k, k))
+			types = append(types, fmt.Sprintf("type hiddenEmb%d struct {\n\tPhantom%d *string `parquet:\"phantom%d\"`\n}\n", k, k, k))
+			fields = append(fields, fmt.Sprintf("\tSkipEmb%d `parquet:\"-\"`", k))
+			fields = append(fields, fmt.Sprintf("\thiddenEmb%d", k))
+		}
 		for i, c := range children {
 			fn := fmt.Sprintf("N%d", ctr)
 			ctr++
@@ -179,7 +187,24 @@ func (s Shape) SourceDeco(pkg string, mode, level int) string {
 		}
 	}
 	mk(s, "Rec", 0)
-	return "package " + pkg + "\n\n// shape: " + s.String() + fmt.Sprintf(" deco mode %d level %d", mode, level) + "\n\n" + strings.Join(types, "\n")
+	hdr := "package " + pkg + "\n\n// shape: " + s.String() + fmt.Sprintf(" deco mode %d level %d", mode, level) + "\n\n"
+	switch mode {
+	case 8, 9:
+		// source-form variants: the root struct declared first (9), all types in one grouped declaration, root first (8)
+		rev := make([]string, 0, len(types))
+		for i := len(types) - 1; i >= 0; i-- {
+			rev = append(rev, types[i])
+		}
+		if mode == 9 {
+			return hdr + strings.Join(rev, "\n")
+		}
+		var specs []string
+		for _, t := range rev {
+			specs = append(specs, "\t"+strings.Replace(strings.TrimSuffix(strings.TrimPrefix(t, "type "), "\n"), "\n", "\n\t", -1))
+		}
+		return hdr + "type (\n" + strings.Join(specs, "\n\n") + "\n)\n"
+	}
+	return hdr + strings.Join(types, "\n")
 }
 
 // tagFor: the struct tag of a field. Modes 4-6 vary only the tag: 4 = the parquet key between other keys (inert),
